@@ -147,6 +147,28 @@ impl Monitor for C14 {
             if !matches!(c.name(), "swap" | "swap_v2" | "two_hop_swap" | "two_hop_swap_v2") {
                 continue;
             }
+            // control factor zero: the same swap on a copy of the state without the oracle account (a static-fee pool with the
+            // same rate) must leave the same pool, vaults and trader balances - "charges exactly like a static-fee pool"
+            if matches!(c.name(), "swap" | "swap_v2") {
+                let ok_key = c.a("oracle");
+                if v.pre.data(&ok_key).and_then(decode::oracle).map(|o| o.c.adaptive_fee_control_factor == 0).unwrap_or(false) {
+                    let mut f = v.pre.clone();
+                    f.accts.remove(&ok_key);
+                    let r = crate::rt::exec_tx_simple(&mut f, &crate::rt::Tx { ixs: vec![v.ix.clone()] });
+                    cov.probe("zero_control_factor_static_twin");
+                    let wk = c.a("whirlpool");
+                    let same = r.ok
+                        && f.data(&wk) == v.post.data(&wk)
+                        && ["token_vault_a", "token_vault_b", "token_owner_account_a", "token_owner_account_b"].iter().all(|n| crate::world::token_amount(&f, &c.a(n)) == crate::world::token_amount(v.post, &c.a(n)));
+                    if !same {
+                        let (pa, pb) = (f.data(&wk).and_then(decode::pool), v.post.data(&wk).and_then(decode::pool));
+                        out.push(viol("zero_control_factor_differs_from_static", ev.idx, format!("{} on a pool with control factor 0: without the oracle (static-fee pool) ok={} price {:?} fee growth {:?} / {:?} protocol {:?} / {:?}; with it price {:?} fee growth {:?} / {:?} protocol {:?} / {:?}", c.name(), r.ok,
+                            pa.as_ref().map(|p| p.sqrt_price), pa.as_ref().map(|p| p.fee_growth_global_a), pa.as_ref().map(|p| p.fee_growth_global_b), pa.as_ref().map(|p| p.protocol_fee_owed_a), pa.as_ref().map(|p| p.protocol_fee_owed_b),
+                            pb.as_ref().map(|p| p.sqrt_price), pb.as_ref().map(|p| p.fee_growth_global_a), pb.as_ref().map(|p| p.fee_growth_global_b), pb.as_ref().map(|p| p.protocol_fee_owed_a), pb.as_ref().map(|p| p.protocol_fee_owed_b))));
+                        return out;
+                    }
+                }
+            }
             // Byzantine trader on a copy: the oracle slot of an adaptive-fee pool holds some empty address instead of the
             // pool's oracle account. Such a swap would be charged without the adaptive part (and pass the trade-enable
             // gate unseen), so it must not go through.
